@@ -5,9 +5,9 @@
 cd "$(dirname "$0")/.."
 if [ -n "$(git -C /repo status --porcelain --untracked-files=no)" ]; then echo "/repo is not clean"; exit 2; fi
 ids="$@"
-[ -n "$ids" ] || ids=$(ls seeded | grep -E '^C[0-9]+-[0-9]+$')
+[ -n "$ids" ] || ids=$(ls seeded | grep -E "^C[0-9]+-")
 for id in $ids; do
-  p=${id%%-*}; n=${id##*-}
+  p=${id%%-*}; n=${id#*-}
   [ -f seeded/$id/patch.diff ] || continue
   if ! git -C /repo apply --check seeded/$id/patch.diff 2>/dev/null; then echo "$id: patch does not apply"; continue; fi
   git -C /repo apply seeded/$id/patch.diff
